@@ -10,6 +10,9 @@ from gen_core import S, L, typed
 def domain_tree(tokens, names):
     tys = list(names) + ["object"]
     preds = [L(S("r")), L(S("m"), S("?a"), S("-"), S("object"))] + [L(S(f"n_{t}"), S("?a"), S("-"), S(t)) for t in tys]
+    # the same test next to a parameter of the root type, written typed and left untyped
+    preds += [L(S(f"b_{t}"), S("?a"), S("-"), S(t), S("?b"), S("-"), S("object")) for t in tys]
+    preds += [L(S(f"u_{t}"), S("?a"), S("-"), S(t), S("?b")) for t in tys]
     acts = [L(S(":action"), S(f"mark_{t}"), S(":parameters"), L(), S(":precondition"), L(),
               S(":effect"), L(S("and"), L(S("forall"), L(S("?z"), S("-"), S(t)), L(S("when"), L(S("r")), L(S("m"), S("?z"))))))
             for t in tys]
@@ -56,7 +59,8 @@ def run_case(case, opts):
     for t1 in tys:
         for t2 in tys:
             k += 1
-            ptree = problem_tree(objs, [f"n_{t2}", f"o_{t1}"])
+            fact = ([f"n_{t2}", f"o_{t1}"], [f"b_{t2}", f"o_{t1}", f"o_{t2}"], [f"u_{t2}", f"o_{t1}", "o_object"])[k % 3]
+            ptree = problem_tree(objs, fact)
             out, _ = pylib.observe_problem(layout.pretty(ptree), dom)
             ev.append({"c": "ParseProblem", "h": f"p{k}", "d": "d", "tree": ptree, "out": out})
     ev.append({"c": "Snap", "snap": {"d": domain_digest(dom), "s0": pylib.project_state(state)}})
